@@ -20,7 +20,8 @@ THEOREMS = ['C09_synth_equiv', 'C09_analysis_equiv', 'C09_fast_padding_inert', '
             'C09_options_irrelevant', 'C09_base_multiple_irrelevant', 'C09_mask_equiv', 'C09_axes_equiv',
             'C09_eigenvalues_equiv', 'C09_shapes', 'C09_hyps_satisfiable',
             'C09_explicit_terms_equiv', 'C09_explicit_terms_padding_inert', 'C09_implicit_terms_equiv',
-            'C09_implicit_inverse_equiv', 'C09_whole_state_satisfiable']
+            'C09_implicit_inverse_equiv', 'C09_whole_state_satisfiable',
+            'C09_step_equiv', 'C09_filter_equiv', 'C09_trajectory_equiv', 'C09_trajectory_cn_rk2_filtered', 'C09_step_satisfiable']
 LEVEL = 'proof'
 LEVEL_TEXT = ('machine-checked theorems (Coq) for every field, all sizes, all paddings, all tables related by the fixed '
               're-indexing and ALL inputs: synth_fast.E = pad.synth_real, analysis_fast.pad = E.analysis_real, inertness of '
@@ -128,8 +129,12 @@ def generate(ctx):
                                     + (EXTRA_VARIANTS if (ctx.tier == 'thorough' and not big) else []),
                         'full_methods_variants': [0] if (big or ctx.tier == 'quick') else [n % 8, (n + 5) % 8]}
 
-    # ---- "hence the same model tendencies": whole-state primitive equations, reference vs fast, and the fast model ----
-    wv = [dict(base=1, stacked=0, rev=0), dict(base=4, stacked=1, rev=0, model=1), dict(base=4, stacked=0, rev=0), dict(base=1, stacked=1, rev=0)]
+    # ---- "hence the same model tendencies and trajectories": whole-state primitive equations, reference vs fast, and the fast model ----
+    thorough_ = 1 if ctx.tier == 'thorough' else 0
+    wv = [dict(base=1, stacked=0, rev=0, traj=thorough_), dict(base=4, stacked=1, rev=0, model=1, traj=1), dict(base=4, stacked=0, rev=0, traj=thorough_),
+          dict(base=1, stacked=1, rev=0, traj=thorough_)]
+    integ = ['imex_rk_sil3', 'crank_nicolson_rk2'] + (['backward_forward_euler', 'crank_nicolson_rk3', 'crank_nicolson_rk4', 'semi_implicit_leapfrog']
+                                                       if ctx.tier == 'thorough' else [])
     wplan = [(dict(M=2, L=3, I=6, J=3), 2, 1, 1)] if ctx.tier == 'quick' else \
             [(dict(M=2, L=3, I=6, J=3), 2, 1, 1), (dict(M=3, L=4, I=8, J=4), 2, 0, 1), (dict(M=4, L=5, I=12, J=6), 3, 1, 0)]
     for n, (wc, K, oro, ntr) in enumerate(wplan):
@@ -137,6 +142,7 @@ def generate(ctx):
         yield 'whole_state_equiv', {'cfg': dict(wc, spacing='gauss', offset=0.0, radius=1.0), 'b': [0.0] + [t / 32.0 for t in inner] + [1.0],
                                     'T': (250.0 + rng.integers(-160, 161, size=K) / 4.0).tolist(), 'eta': [0.5, 0.125, 2.0][n % 3],
                                     'oro': oro, 'ntr': ntr, 'seed': int(rng.integers(1 << 30)),
+                                    'integrators': integ, 'dt': 0.01, 'tau': 0.05, 'nsteps': 3,
                                     'variants': [dict(v, model=(1 if (v.get('model') and n == 0) else 0)) for v in wv]}
 
     yield 'cache_integrity', {}
@@ -423,8 +429,27 @@ def r_whole_state_equiv(ctx, a):
         eq = pe.PrimitiveEquations(Tref, emb(f['oro']), coords, specs)
         st = pe.State(emb(f['vort']), emb(f['div']), emb(f['Tdev']), emb(f['lnps']), {n: emb(f['tracers'][n]) for n in names})
         return (coords, st, C04.flat_state(eq.explicit_terms(st), names), C04.flat_state(eq.implicit_terms(st), names),
-                C04.flat_state(eq.implicit_inverse(st, eta), names))
-    _, _, er, ir, vr = run(gr, lambda x: x)
+                C04.flat_state(eq.implicit_inverse(st, eta), names), eq)
+
+    def trajectories(grid, eq, st):
+        """3 filtered steps of every requested integrator (time_integration.step_with_filters, exponential filter)"""
+        from dinosaur import time_integration as ti
+        dt = float(a.get('dt', 0.01)); out = {}
+        for nm in a.get('integrators', []):
+            if nm == 'semi_implicit_leapfrog':
+                step = ti.semi_implicit_leapfrog(eq, dt, alpha=0.5)
+                flt = ti.exponential_leapfrog_step_filter(grid, dt, tau=float(a.get('tau', 0.05)), order=2, cutoff=0.2)
+                u = (st, st)
+            else:
+                step = getattr(ti, nm)(eq, dt)
+                flt = ti.exponential_step_filter(grid, dt, tau=float(a.get('tau', 0.05)), order=2, cutoff=0.2)
+                u = st
+            f = ti.step_with_filters(step, [flt])
+            for _ in range(int(a.get('nsteps', 3))): u = f(u)
+            out[nm] = C04.flat_state(u[1] if isinstance(u, tuple) else u, names)
+        return out
+    _, st_r, er, ir, vr, eq_r = run(gr, lambda x: x)
+    tr_r = trajectories(gr, eq_r, st_r)
     smag = 1.0 + max(A(f['vort']), A(f['div']), A(f['Tdev']), A(f['lnps']), A(Tref))
     sce = [1e3 * (1.0 + A(x)) * smag for x in er]; sci = [1e3 * (1.0 + A(x)) * smag for x in ir]; scv = [1e3 * (1.0 + A(x)) * smag for x in vr]
     ar_, br_ = (np.asarray(t) for t in gr._derivative_recurrence_weights)
@@ -447,7 +472,16 @@ def r_whole_state_equiv(ctx, a):
                              bool(np.array_equal(np.asarray(gf.sec2_lat)[:Jn], np.asarray(gr.sec2_lat))
                                   and np.array_equal(np.asarray(gf.nodal_axes[1])[:Jn], np.asarray(gr.nodal_axes[1]))), None)
         emb = lambda x, fs=fs: E(np.asarray(x, dtype=np.float64), M, L, fs)
-        coords_f, st_f, ef, imf, vf = run(gf, emb)
+        coords_f, st_f, ef, imf, vf, eq_f = run(gf, emb)
+        if v.get('traj'):
+            tr_f = trajectories(gf, eq_f, st_f)
+            for inm in tr_r:
+                for nm, x_, y_ in zip(fields, tr_f[inm], tr_r[inm]):
+                    ctx.oracle_close('trajectory (%d filtered steps of %s): Pi(fast(E s)) = real(s) [%s]' % (int(a.get('nsteps', 3)), inm, nm),
+                                     Pi(x_, M, L), y_, scale=1e3 * (1.0 + A(y_)) * smag)
+                    ctx.oracle('trajectory (%s): fast state stays zero on the extra row and on all padding [%s]' % (inm, nm),
+                               bool(np.all(x_ == E(Pi(x_, M, L), M, L, fs))), None)
+                ctx.count('trajectory:' + inm)
         for nm, x_, y_, s_ in zip(fields, ef, er, sce):
             ctx.oracle_close('explicit_terms: Pi(fast(E s)) = real(s) [%s]' % nm, Pi(x_, M, L), y_, scale=s_)
             ctx.oracle('explicit_terms: fast result is zero on the extra row and on all padding [%s]' % nm,
